@@ -29,7 +29,7 @@ def bounds(tier):
 
 
 def expected_clauses(tier):
-    return ['psd_func', 'psd_class', 'parseval', 'psd_2d', 'wiener_khinchin']
+    return ['psd_func', 'psd_class', 'parseval', 'psd_2d', 'wiener_khinchin', 'psd_method']
 
 
 _W = {}
@@ -219,6 +219,19 @@ def eval_point(pt, R):
             rhs = float(np.sum(np.abs(A.prom(x) * w) ** 2) / N)
             R.check(abs(lhs - rhs) <= 1e-9 * max(abs(lhs), abs(rhs)) + atol, 'parseval', feats, pt, lhs, rhs,
                     'mean of the returned values != sum|x w|^2/N')
+        if form == 'class':
+            # the method form: <Fourier spectrum object>.periodogram() must take window, NFFT, detrend, scaling from the object's attributes
+            for tag, mk in (('FourierSpectrum', lambda: spectrum.FourierSpectrum(x, sampling=1., window=wname, NFFT=pt['NFFT'], scale_by_freq=False, detrend=None)),
+                            ('Periodogram', lambda: spectrum.Periodogram(x, sampling=1., window=wname, NFFT=pt['NFFT'], scale_by_freq=False, detrend=None))):
+                R.calls()
+                try:
+                    o = mk()
+                    o.periodogram()
+                    obs2 = np.asarray(o.psd)
+                    R.check(close(obs2, ref, RTOL, atol) and not np.iscomplexobj(obs2), 'psd_method', dict(feats, obj=tag), pt, obs2, ref,
+                            '<object>.periodogram(): PSD != |DFT(x*w)|^2/N', err=relerr(obs2, ref))
+                except Exception as e:
+                    R.viol('psd_method', dict(feats, obj=tag, exc=type(e).__name__), pt, repr(e), ref, 'exception inside the domain')
     elif kind == '2d':
         X = np.asarray(pt['X'])
         N, c = X.shape
